@@ -49,7 +49,7 @@ def decorate(rng, g, coarse=False):
 
 
 def render_atomistic(rng):
-    g = M.gen_molecule(rng, max_heavy=rng.choice([1, 3, 6, 10, 16]), p_ring=rng.choice([0.25, 0.7]))
+    g = M.gen_molecule(rng, max_heavy=rng.choice([1, 3, 6, 10, 16]), p_ring=rng.choice([0.25, 0.7]), p_arom=rng.choice([0.3, 0.3, 0.8]), p_thio=0.5)
     desc, annots = decorate(rng, g)
     for n in annots:
         g.nodes[n]['force_bracket'] = True
